@@ -299,6 +299,7 @@ class TraitList(list):
             The modified list.
         """
 
+        value = operator.index(value)
         if value < 1:
             removed = self.copy()
             multiplied = super().__imul__(value)
@@ -399,6 +400,7 @@ class TraitList(list):
         """
 
         # For insert, *any* index is valid!
+        index = operator.index(index)
         if index < 0:
             normalized_index = max(index + len(self), 0)
         else:
@@ -429,6 +431,7 @@ class TraitList(list):
 
         # We don't need to worry about indices < -len(self) or >= len(self):
         # for those, the pop call will raise anyway.
+        index = operator.index(index)
         normalized_index = index + len(self) if index < 0 else index
         item = super().pop(index)
         self.notify(normalized_index, [item], [])
@@ -675,6 +678,7 @@ class TraitListObject(TraitList):
             The modified list.
         """
 
+        value = operator.index(value)
         self._validate_length(max(0, len(self) * value))
         return super().__imul__(value)
 
